@@ -317,6 +317,9 @@ def paired(repo, report):
                 bad.append(("registered without match", cn))
             elif has is None and (ext or wa):
                 bad.append(("registration does not depend on the chosen list", cn, ext))
+            elif has is None and r.exit[0] == "return":
+                # the path ends without ever asking whether this mate had matches: they cannot have been registered
+                bad.append((f"the matches of {cn} are not looked at on a path that returns", r.describe()["valuation"]))
     report.ob("C16.R3", "PairedReverseComplementer.__call__", not bad, facts={"paths": len(rows), "problems": [str(b)[:300] for b in bad[:3]]},
               expected="swapped: counter+1, is_rc True on both infos, suffix on both names iff configured, returns (cutter1 on R2, cutter2 on R1); matches of the chosen orientation registered on their own info/cutter",
               loc=repo.loc(fn), cases=len(rows), why=str(bad[0])[:240] if bad else "")
